@@ -6,6 +6,7 @@ import (
 	"errors"
 	"io"
 	"net"
+	"strings"
 	"sync"
 	"time"
 
@@ -394,7 +395,25 @@ func (c *Client) SendRaw(packet string) error {
 		return errors.New("client is not connected")
 	}
 
+	// Stream management requests and answers are not stanzas (see Send): neither counted nor held.
+	if isStreamManagementElement(packet) {
+		return c.sendWithWriter(c.transport, []byte(packet))
+	}
 	return c.sendStanza([]byte(packet))
+}
+
+// isStreamManagementElement tells whether a raw string is an <r/> or <a/> element of XEP-0198.
+func isStreamManagementElement(packet string) bool {
+	d := xml.NewDecoder(strings.NewReader(packet))
+	for {
+		t, err := d.Token()
+		if err != nil {
+			return false
+		}
+		if se, ok := t.(xml.StartElement); ok {
+			return se.Name.Space == stanza.NSStreamManagement && (se.Name.Local == "r" || se.Name.Local == "a")
+		}
+	}
 }
 
 func (c *Client) sendWithWriter(writer io.Writer, packet []byte) error {
